@@ -59,6 +59,16 @@ PROPS["C03"] = {
     "rule": "cases = (memory size: VerifyConfig-accepted 1-64 MiB / small 1-5000 bytes / boundary values; 0-5 classes; sizes 0, tiny, fraction of memory, near memory size, 4096k-20, random; percents splitting 100 or perturbed; queue capacity 0/1/2/3/8/1024/random) -> verify, create, map, queue; non-trivial = create ok / err / panic, VerifyConfig accept, multi-class; distinct by hash of op lines",
     "assumptions": ["both processes see the same bytes at the same length (mmap)", "amd64 field offsets for the queue header (4, 12, 20)"],
 }
+PROPS["C13"] = {
+    "claim": "Proof. Lean model of Session.onEventData / handleEvents / checkEventValid / the five post-handshake handlers' length handling and dispatch, and of extractShmMetadata, in which every byte access is justified by a preceding length check (the model has no partial access). Proved: c13_chunk_independent (for EVERY byte string and EVERY way of cutting it into reads the resulting session summary, closed flag and unconsumed rest are those of a single read), c13_wellformed_roundtrip (every encoded event is parsed back to itself, consuming exactly its bytes), c13_consumed_in_range, c13_metadata_roundtrip/c13_metadata_total. Four panics found on the original code (short fallback-data events, short metadata body, HotRestart / HotRestartAck in the wrong direction) were repaired by fix: commits; the model follows the repaired code and the old crashing inputs stay in the corpus.",
+    "note": "Trusted: Lean kernel; extractor; harness (bare in-package session with stub connection/dispatcher). handlePolling's drain of the shared queue is an opaque effect here (C04/C05/C07 cover it). The handshake readers other than extractShmMetadata (blocking socket reads, make(Length-8)) are exercised by C12's harness, not modelled here.",
+    "technique": "Lean 4 proof (prefix-stability of the event parser, induction over the chunk list) + skeleton tie + differential correspondence on generated/mutated byte streams and chunkings",
+    "design_ref": "DESIGN.md §5 C13",
+    "lean_modules": ["ShmVerif.Tie.C13", "ShmVerif.Props.C13"],
+    "harness": True, "level": "proof", "trusted_base": COMMON_TB,
+    "rule": "cases = 1-8 events from the real encoders (polling, stream close, fallback data with assorted payload sizes/status words, hot restart, ack), each mutated with probability 5/14 (truncation, length-field perturbation incl. <8, <16, huge, wrong type, version 0, bad magic, bit flip), optional garbage tail, cut into reads (whole / byte-by-byte / 1-5 bytes / random), on client or server sessions with/without manager/listener; plus handshake metadata bodies (valid, truncated, perturbed lengths); non-trivial = protocol error, partial event kept across reads, streams created, chunked, metadata error; distinct by hash of op lines",
+    "assumptions": ["the posted hot-restart lambdas are not run here (C16)", "queue empty during handlePolling in this harness"],
+}
 PROPS["C02"] = dict(PROPS["C01"], lean_modules=["ShmVerif.Tie.C01", "ShmVerif.Props.C02"],
     claim="PARTIAL proof. Proved in Lean: c02_conservation_seq and c02_quiescent_full_seq (every sequential-atomic history: free count = chain length, free count + owned = capacity; when nothing is owned size = cap and the walk from head visits every slot exactly once and ends at tail), c02_failed_alloc_consumes_nothing (a failing pop restores every shared word), c02_aba_witness (kernel-checked: after the ABA schedule and full recycling size = cap = 4 but the walk visits 2 slots - known finding F1, replayed on the real code every run). Conservation for ABA-free concurrent interleavings is not proved; covered by scheduler correspondence + quiescence monitors (size, chain walk, count never exceeds capacity).",
     design_ref="DESIGN.md §5 C02")
